@@ -33,7 +33,7 @@ CLIENT = ("2001:db8::c", 40000)
 OTHERPORT = ("2001:db8::1", 5684)
 OTHERIP = ("2001:db8::2", 5683)
 
-INJ = ("ack", "rst", "resp", "ackresp-badtoken", "ack+1", "ack-1", "ack@port", "ack@ip", "rst@port", "oldresp-non", "oldresp-con")
+INJ = ("ack", "rst", "resp", "ackresp-badtoken", "ack+1", "ack-1", "ack@port", "ack@ip", "rst@port", "rst+1", "rst@ip", "oldresp-non", "oldresp-con")
 POS = ("now", "mid", "tie")
 
 
@@ -239,6 +239,8 @@ class ConScenario(Scenario):
             return src, (rc.ACK, 0, (mid + 1) & 0xFFFF, b"", [], b"")
         if kind == "ack-1":
             return src, (rc.ACK, 0, (mid - 1) & 0xFFFF, b"", [], b"")
+        if kind == "rst+1":
+            return src, (rc.RST, 0, (mid + 1) & 0xFFFF, b"", [], b"")
         if kind == "ack":
             return src, (rc.ACK, 0, mid, b"", [], b"")
         if kind == "rst":
